@@ -787,6 +787,10 @@ class _Unaligned(Exception):
 
 
 def apply_fn(fn, args):
+    # numpy scalars: x / 0 gives inf / nan (as inside the library when a
+    # numpy value is involved) instead of raising
+    args = [np.float64(a) if isinstance(a, (int, float)) and
+            not isinstance(a, bool) else a for a in args]
     with np.errstate(all='ignore'):
         if fn == 'add' or fn == 'ufunc:add':
             return args[0] + args[1]
